@@ -134,7 +134,11 @@ func GenC16(seed uint64) *Plan {
 			}
 		}
 		// identity columns supplied by the user in some runs (with the documented types)
-		for _, idc := range []string{"block_num", "tx_idx", "ig_name", "src_name"} {
+		idcs := []string{"block_num", "tx_idx", "ig_name", "src_name"}
+		if mode == model.ModeLog {
+			idcs = append(idcs, "log_idx", "abi_idx")
+		}
+		for _, idc := range idcs {
 			// the column type as a user may spell it (other accepted spellings
 			// of the same kind of column)
 			spell := FieldType[idc]
@@ -152,7 +156,17 @@ func GenC16(seed uint64) *Plan {
 				addCol(idc, spell)
 			case r < 37:
 				// only the column is declared; the field that writes it is
-				// one of the automatically required ones
+				// one of the automatically required ones (the element index is
+				// one only when an input from the log's data is selected)
+				if idc == "abi_idx" {
+					needed := false
+					for _, in := range d.SelectedInputs() {
+						needed = needed || !in.Indexed
+					}
+					if !needed {
+						break
+					}
+				}
 				addCol(idc, spell)
 			}
 		}
